@@ -17,7 +17,7 @@ func init() {
 		Explanation: "Decides structural necessary conditions of C20: (R-C20-1) store-owned bytes (the result of invoking a Secret) never reach reflect.ValueOf -- i.e. caller-owned memory -- without passing a copying operation (bytes.Clone, slices.Clone, append onto nil, conversion to string); read-only consumers (json.Unmarshal, UnmarshalBinary) are allowed; " +
 			"(R-C20-2) Fields.Secrets and Fields.Apply compute the full name with the same callee over the same two fields (path.Join(f.prefix, fi.secretName)), the name declared is the name looked up; (R-C20-3) the loop of Apply has no early exit and every non-nil field error flows into the returned errors.Join; " +
 			"(R-C20-4) the set of plain types accepted by parseFields equals the case set of the assignment switch in apply, every other non-JSON, non-unmarshaler type is rejected with an error, an empty tag name is rejected before the field is recorded, the pointer-to-struct test precedes every reflective access, and no tagged field yields ErrNoFields; " +
-			"(R-C20-7) the struct-tag plumbing keeps no package-level state (a parse result is bound to the struct value it was parsed from; only the reflect.Type constants and ErrNoFields are shared) and the json verb is recognised from the tag pieces after the name, never from the name itself; (R-C20-5) NewStore applies every parsed struct before it returns successfully and the struct-tagged names are merged into the declared list; (R-C20-6) string fields are filled by a []byte->string conversion and Secret fields receive the handle itself; (R-C20-8) the handle given to a field reads the entry stored under its name at each call; (R-C20-9) parseFields looks up the tag of every visible field and a field whose tag is present is appended or makes it return an error.",
+			"(R-C20-7) the struct-tag plumbing keeps no package-level state (a parse result is bound to the struct value it was parsed from; only the reflect.Type constants and ErrNoFields are shared) and the json verb is recognised from the tag pieces after the name, never from the name itself; (R-C20-5) NewStore applies every parsed struct before it returns successfully and the struct-tagged names are merged into the declared list; (R-C20-6) string fields are filled by a []byte->string conversion and Secret fields receive the handle itself; (R-C20-8) the handle given to a field reads the entry stored under its name at each call; (R-C20-9) parseFields looks up the tag of every visible field and a field whose tag is present is appended or makes it return an error. (R-C20-10) the json verb and nothing else selects JSON decoding in fieldInfo.apply (with the verb no direct assignment is reachable, without it no JSON decoding); (R-C20-11) while parsing, a reflect call that writes lies past the present edge of the field's tag lookup (untagged fields are never touched).",
 		NotDecided:  "Behaviour over arbitrary run-time struct shapes (reflection); what a user's UnmarshalBinary does with the slice it is handed.",
 		Trusted:     append([]string{"bytes.Clone / slices.Clone / string(b) copy", "BinaryUnmarshaler's contract requires copying"}, commonTrusted...),
 		Assumptions: []string{},
@@ -384,6 +384,8 @@ func runC20(c *eng.Ctx, tier string) {
 	// a Secret-typed field (and every later Apply) reads the entry currently stored under its name
 	handleBoundToName(c, "R-C20-8")
 	c20EveryTaggedField(c, parse)
+	c20VerbDecides(c, apply)
+	c20ParseReadOnly(c, parse)
 
 	// R-C20-5
 	if ns := p.Func(setecPkg, "NewStore"); ns != nil {
@@ -396,24 +398,76 @@ func runC20(c *eng.Ctx, tier string) {
 			}
 		})
 		applied := false
-		for _, rl := range eng.RangeLoops(ns) {
-			call, idx := eng.TupleCall(rl.Slice)
-			if call == nil || call != names || idx != 1 {
-				continue
+		// applyLoop: g applies every element of the slice `list` (a full-range
+		// loop whose body calls Fields.Apply on the element) and returns a nil
+		// error only after the loop is exhausted
+		applyLoop := func(g *ssa.Function, isList func(ssa.Value) bool) bool {
+			res := false
+			for _, rl := range eng.RangeLoops(g) {
+				rl := rl
+				if !isList(rl.Slice) {
+					continue
+				}
+				eng.Instrs(g, func(in ssa.Instruction) {
+					if ac, ok := in.(*ssa.Call); ok && eng.Callee(&ac.Call) == fApply && rl.InLoop(ac.Block()) && rl.ElemOf(ac.Call.Args[0]) {
+						okRet := true
+						ei := errResultIndex(g)
+						for _, r := range eng.Returns(g) {
+							rv := eng.RetVals(r)
+							if ei >= 0 && eng.IsNilConst(eng.Origin(rv[ei])) && !rl.Done.Dominates(r.Block()) {
+								okRet = false
+							}
+						}
+						res = okRet
+					}
+				})
 			}
-			// body applies the element
+			return res
+		}
+		isParsed := func(v ssa.Value) bool {
+			call, idx := eng.TupleCall(v)
+			return call != nil && call == names && idx == 1
+		}
+		applied = applyLoop(ns, isParsed)
+		if !applied {
+			// the loop may live in a helper NewStore hands the parsed structs to;
+			// NewStore then succeeds only on the nil edge of that helper's error
 			eng.Instrs(ns, func(in ssa.Instruction) {
-				if ac, ok := in.(*ssa.Call); ok && eng.Callee(&ac.Call) == fApply && rl.InLoop(ac.Block()) && rl.ElemOf(ac.Call.Args[0]) {
-					// success return only after the loop is exhausted
-					okRet := true
-					for _, r := range eng.Returns(ns) {
-						rv := eng.RetVals(r)
-						if eng.IsNilConst(eng.Origin(rv[1])) && !rl.Done.Dominates(r.Block()) {
-							okRet = false
+				hc, ok := in.(*ssa.Call)
+				if !ok || applied {
+					return
+				}
+				h := eng.Callee(&hc.Call)
+				if !eng.IsHelper(ns, h) || errResultIndex(h) < 0 {
+					return
+				}
+				pi := -1
+				for i, a := range hc.Call.Args {
+					if isParsed(a) && i < len(h.Params) {
+						pi = i
+					}
+				}
+				if pi < 0 || !applyLoop(h, func(v ssa.Value) bool { return eng.Origin(v) == ssa.Value(h.Params[pi]) }) {
+					return
+				}
+				herr := saveErr(hc)
+				okRet := true
+				for _, r := range eng.Returns(ns) {
+					rv := eng.RetVals(r)
+					if !eng.IsNilConst(eng.Origin(rv[1])) {
+						continue
+					}
+					dom := false
+					for _, cond := range eng.FactsAt(r) {
+						if v, isNil, isE := cond.ErrCheck(); isE && isNil && eng.Same(v, herr) {
+							dom = true
 						}
 					}
-					applied = okRet
+					if !dom {
+						okRet = false
+					}
 				}
+				applied = okRet
 			})
 		}
 		c.Check(applied, "R-C20-5", ns, ns.Pos(), "application of configured structs in NewStore", "every parsed struct is applied (full-range loop) before NewStore returns successfully", "")
@@ -878,5 +932,122 @@ func c20EveryTaggedField(c *eng.Ctx, parse *ssa.Function) {
 		}
 		rv := eng.RetVals(r)
 		c.Check(nonNilAt(rv[len(rv)-1], eng.FactsAt(r)) == eng.Yes, "R-C20-9", parse, r.Pos(), eng.InstrStr(r), "leaving the field loop early is an error return", "may return nil error from inside the loop")
+	}
+}
+
+// c20VerbDecides: R-C20-10.  The json verb, and nothing else, selects JSON
+// decoding: in fieldInfo.apply, with isJSON true no path reaches a direct
+// assignment (reflect Set*, the field's own unmarshaler) and every successful
+// return has passed json.Unmarshal; with isJSON false json.Unmarshal is
+// unreachable.
+func c20VerbDecides(c *eng.Ctx, apply *ssa.Function) {
+	p := c.P
+	if apply == nil {
+		return
+	}
+	fld := fieldInfoField(p, "isJSON")
+	assume := func(want bool) eng.EdgeFilter {
+		return func(b *ssa.BasicBlock, i int) bool {
+			ifi, ok := b.Instrs[len(b.Instrs)-1].(*ssa.If)
+			if !ok {
+				return true
+			}
+			v, truth, isB := eng.CondOf(ifi.Cond, i == 0).Bool()
+			if !isB {
+				return true
+			}
+			if fr, _, isF := eng.LoadedField(v); isF && fr.Is(setecPkg, "fieldInfo", fld) {
+				return truth == want
+			}
+			return true
+		}
+	}
+	isJSONDecode := func(x ssa.Instruction) bool {
+		ci, ok := x.(ssa.CallInstruction)
+		return ok && (eng.CalleeIs(ci.Common(), "encoding/json", "Unmarshal") || eng.CalleeIs(ci.Common(), "encoding/json", "*Decoder.Decode"))
+	}
+	isDirect := func(x ssa.Instruction) bool {
+		ci, ok := x.(ssa.CallInstruction)
+		if !ok {
+			return false
+		}
+		if cal := ci.Common().StaticCallee(); cal != nil && cal.Pkg != nil && cal.Pkg.Pkg.Path() == "reflect" && strings.HasPrefix(cal.Name(), "Set") {
+			return true
+		}
+		// the field's own binary/text unmarshaler
+		if fr, _, isF := eng.LoadedField(ci.Common().Value); isF && fr.Is(setecPkg, "fieldInfo", fieldInfoField(p, "unmarshal")) {
+			return true
+		}
+		return false
+	}
+	nJ := 0
+	eng.Instrs(apply, func(in ssa.Instruction) {
+		if isJSONDecode(in) {
+			nJ++
+		}
+	})
+	if nJ == 0 {
+		c.Undecided("R-C20-10", apply, apply.Pos(), "JSON decoding in "+eng.FName(apply), "no json.Unmarshal found")
+		return
+	}
+	hit, path := eng.Search(apply, nil, assume(true), isJSONDecode, isDirect)
+	c.Check(hit == nil, "R-C20-10", apply, apply.Pos(), "field with the json verb", "is JSON-decoded whatever its type (string, []byte and Secret fields included): no direct assignment is reachable with the verb set", func() string {
+		if hit == nil {
+			return ""
+		}
+		return eng.InstrStr(hit) + " reached with the verb set: " + p.PathStr(path)
+	}())
+	hit2, path2 := eng.Search(apply, nil, assume(false), nil, isJSONDecode)
+	c.Check(hit2 == nil, "R-C20-10", apply, apply.Pos(), "field without the json verb", "is never JSON-decoded", func() string {
+		if hit2 == nil {
+			return ""
+		}
+		return "json decoding reached without the verb: " + p.PathStr(path2)
+	}())
+}
+
+// c20ParseReadOnly: R-C20-11.  Parsing leaves untagged fields untouched:
+// parseFields and its helpers call a mutating method of reflect.Value only
+// past the present edge of the field's setec tag lookup.
+func c20ParseReadOnly(c *eng.Ctx, parse *ssa.Function) {
+	if parse == nil {
+		return
+	}
+	n := 0
+	eng.InstrsDeep(parse, func(g *ssa.Function, in ssa.Instruction) {
+		ci, ok := in.(ssa.CallInstruction)
+		if !ok {
+			return
+		}
+		cal := ci.Common().StaticCallee()
+		if cal == nil || cal.Pkg == nil || cal.Pkg.Pkg.Path() != "reflect" {
+			return
+		}
+		n++
+		mut := strings.HasPrefix(cal.Name(), "Set") || cal.Name() == "Grow" || cal.Name() == "Clear" || cal.Name() == "Copy" || cal.Name() == "Append" || cal.Name() == "Swapper"
+		if cal.Signature.Recv() == nil && cal.Name() != "Copy" {
+			mut = false // reflect.ValueOf, TypeOf, New, ...: create, do not modify
+		}
+		if mut {
+			// allowed for a field whose setec tag was found (a nil pointer
+			// field with its own unmarshaler is allocated when parsed): the
+			// call lies past the present edge of the tag lookup
+			tagged := false
+			for _, cond := range eng.FactsX(in) {
+				if v, truth, isB := cond.Bool(); isB && truth {
+					if ex, isEx := eng.Origin(v).(*ssa.Extract); isEx && ex.Index == 1 {
+						if tc, isC := ex.Tuple.(*ssa.Call); isC && eng.CalleeIs(&tc.Call, "reflect", "StructTag.Lookup") {
+							tagged = true
+						}
+					}
+				}
+			}
+			c.Check(tagged, "R-C20-11", g, in.Pos(), eng.CallStr(ci.Common()), "while parsing, a field is written (a nil unmarshaler pointer allocated) only after its setec tag was found: untagged fields are never touched", "a mutating reflect call not guarded by the presence of the tag")
+		}
+	})
+	if n == 0 {
+		c.Undecided("R-C20-11", parse, parse.Pos(), "reflect calls in the parse routine", "none found")
+	} else {
+		c.Ok("R-C20-11", parse, parse.Pos(), "reflect calls while parsing", "inspection only")
 	}
 }
